@@ -1030,11 +1030,34 @@ def run_shannon(case):
 # --------------------------------------------------------------------------
 # child-process machinery (clauses 17-18)
 
+_ASAN = {}
+
+
+def asan_setup():
+    """Build (once, under the harness' build lock) the ASan+UBSan variant; -> (src path, libasan) or None."""
+    if "v" not in _ASAN:
+        _ASAN["v"] = None
+        try:
+            from vf import build
+            r = subprocess.run(["gcc", "-print-file-name=libasan.so"], capture_output=True, text=True)
+            lib = os.path.realpath(r.stdout.strip())
+            if r.returncode == 0 and os.path.isfile(lib):
+                _ASAN["v"] = (build.ensure(asan=True), lib)
+        except Exception as e:       # no compiler / sanitizer runtime here: the clause is skipped, not failed
+            _ASAN["err"] = repr(e)
+    return _ASAN["v"]
+
+
 def spawn(items, asan=False, timeout=900):
     """Evaluate `items` in a fresh interpreter. -> (results, died)"""
     env = dict(os.environ)
     env["PYTHONHASHSEED"] = "0"
     env.setdefault("OMP_WAIT_POLICY", "PASSIVE")
+    if asan:
+        src, lib = asan_setup()
+        env.update({"C18_CHILD_SRC": src, "LD_PRELOAD": lib,
+                    "ASAN_OPTIONS": "detect_leaks=0:abort_on_error=0:exitcode=99:allocator_may_return_null=1",
+                    "UBSAN_OPTIONS": "print_stacktrace=1:halt_on_error=1:exitcode=98"})
     cmd = [PY, os.path.abspath(__file__), "--child"]
     try:
         p = subprocess.run(cmd, input=json.dumps(items), capture_output=True, text=True, cwd=VERIF, env=env,
@@ -1050,10 +1073,13 @@ def spawn(items, asan=False, timeout=900):
         elif line.startswith("@@END"):
             ended = True
     died = None
+    k = err.find("ERROR: AddressSanitizer")
+    if k < 0:
+        k = err.find("runtime error:")
     if not ended:
-        died = {"index": len(results), "rc": rc, "stderr": err[-1500:]}
-    elif rc != 0:
-        died = {"index": len(items), "rc": rc, "stderr": err[-1500:]}
+        died = {"index": len(results), "rc": rc, "stderr": err[k:k + 1500] if k >= 0 else err[-1500:]}
+    elif rc != 0 or k >= 0:
+        died = {"index": len(items), "rc": rc, "stderr": err[k:k + 1500] if k >= 0 else err[-1500:]}
     return results, died
 
 
@@ -1202,30 +1228,44 @@ def _reaches_kernel_negative(it):
     return tgt.kind == "i"
 
 
-def run_invalid(case):
+def check_invalid_item(i, it, r):
+    require(r["outcome"] == "raised",
+            "invalid input (%s) was accepted: %s returned normally instead of raising" % (it["kind"], it["api"]),
+            item=i, dx=it.get("dx"), dy=it.get("dy"), nx=it.get("nx"), ny=it.get("ny"), shape=r.get("shape"),
+            X=it.get("X", it.get("Xs")), Y=it.get("Y", it.get("Ys")))
+    k = _reaches_kernel_negative(it)
+    cl = ["kind=" + it["kind"], "api=" + it["api"], "raised=" + r["type"]]
+    if it["kind"].startswith("neg"):
+        cl.append("neg_reaches_kernel" if k else "neg_wrapped_or_numpy")
+    return k, cl
+
+
+def run_batch(case, check, asan=False):
+    """Evaluate the items of a batch in one child; `check(i, item, result)` -> (nontrivial, classes)."""
     items = case["items"]
-    results, died = spawn(items)
+    results, died = spawn(items, asan=asan)
     cl, nt = [], False
     for i, it in enumerate(items):
-        if died is not None and i >= died["index"] and i >= len(results):
-            require(False, "invalid input crashed the interpreter instead of being rejected", item=i,
-                    kind=it["kind"], api=it["api"], rc=died["rc"], stderr=died["stderr"][-400:],
-                    dx=it.get("dx"), dy=it.get("dy"))
+        if i >= len(results):
+            require(False, "%s input crashed the interpreter%s" % (
+                "invalid" if it.get("expect") == "raise" else "valid", " (sanitizer report)" if asan else ""),
+                item=i, kind=it.get("kind", it.get("scenario", "valid")), api=it["api"], rc=died and died["rc"],
+                dx=it.get("dx"), dy=it.get("dy"), nx=it.get("nx"), ny=it.get("ny"), X=it.get("X", it.get("Xs")),
+                Y=it.get("Y", it.get("Ys")), stderr=(died or {}).get("stderr", "")[:600])
         r = results[i]
         if r["outcome"] == "harness_error":
             raise RuntimeError("c18 child could not build item %d: %s" % (i, r["msg"]))
-        require(r["outcome"] == "raised",
-                "invalid input (%s) was accepted: %s returned normally instead of raising" % (it["kind"], it["api"]),
-                item=i, dx=it.get("dx"), dy=it.get("dy"), nx=it.get("nx"), ny=it.get("ny"), shape=r.get("shape"),
-                X=it.get("X", it.get("Xs")), Y=it.get("Y", it.get("Ys")))
-        k = _reaches_kernel_negative(it)
-        nt = nt or k
-        cl += ["kind=" + it["kind"], "api=" + it["api"], "raised=" + r["type"]]
-        if it["kind"].startswith("neg"):
-            cl.append("neg_reaches_kernel" if k else "neg_wrapped_or_numpy")
+        n_, c_ = check(i, it, r)
+        nt = nt or n_
+        cl += c_
     if died is not None:
-        require(False, "child died after the last item", rc=died["rc"], stderr=died["stderr"][-400:])
+        require(False, "child process failed after the last item (exit status / sanitizer report)", rc=died["rc"],
+                stderr=died["stderr"][:600])
     return Info(nt, cl)
+
+
+def run_invalid(case):
+    return run_batch(case, check_invalid_item)
 
 
 # --------------------------------------------------------------------------
@@ -1324,42 +1364,54 @@ def _wide_classes(it):
     return trunc, cl
 
 
+def check_valid_item(i, it, r):
+    X0 = np.array(it["X"], dtype=np.int64).reshape(len(it["X"]), -1)
+    Y0 = X0 if it["Y"] is None else np.array(it["Y"], dtype=np.int64).reshape(len(it["Y"]), -1)
+    nx = it["nx"] if it["nx"] is not None else int(X0.max()) + 1
+    ny = nx if it["Y"] is None else (it["ny"] if it["ny"] is not None else int(Y0.max()) + 1)
+    require(r["outcome"] == "returned", "valid input was rejected: joint_counts raised %s: %s" %
+            (r.get("type"), r.get("msg")), item=i, dx=it["dx"], dy=it["dy"], nx=it["nx"], ny=it["ny"],
+            X=it["X"], Y=it["Y"])
+    require(r["shape"] == [X0.shape[1], Y0.shape[1], nx, ny], "wrong table shape", item=i, got=r["shape"],
+            want=[X0.shape[1], Y0.shape[1], nx, ny])
+    want = {}
+    for t in range(len(X0)):
+        for a in range(X0.shape[1]):
+            for b in range(Y0.shape[1]):
+                k = (a, b, int(X0[t, a]), int(Y0[t, b]))
+                want[k] = want.get(k, 0) + 1
+    got = {tuple(e[:4]): e[4] for e in r["nz"]}
+    require(got == want, "joint counts differ from the literal count", item=i, dx=it["dx"], dy=it["dy"],
+            nx=it["nx"], ny=it["ny"], X=it["X"], Y=it["Y"], got=sorted(got.items())[:12],
+            want=sorted(want.items())[:12])
+    if "scenario" in it:
+        return _wide_classes(it)
+    return True, ["valid", "lx=%s" % it["lx"], "dx=%s" % it["dx"], "threads=%d" % it["threads"]]
+
+
 def run_wide(case):
-    items = case["items"]
-    results, died = spawn(items)
-    cl, nt = [], False
-    for i, it in enumerate(items):
-        if i >= len(results):
-            require(False, "valid wide-id input crashed the interpreter", item=i, rc=died and died["rc"],
-                    stderr=(died or {}).get("stderr", "")[-400:], dx=it["dx"], dy=it["dy"], X=it["X"], Y=it["Y"])
-        r = results[i]
-        if r["outcome"] == "harness_error":
-            raise RuntimeError("c18 child could not build item %d: %s" % (i, r["msg"]))
-        X0 = np.array(it["X"], dtype=np.int64)
-        Y0 = X0 if it["Y"] is None else np.array(it["Y"], dtype=np.int64)
-        nx = it["nx"] if it["nx"] is not None else int(X0.max()) + 1
-        ny = nx if it["Y"] is None else (it["ny"] if it["ny"] is not None else int(Y0.max()) + 1)
-        require(r["outcome"] == "returned", "valid input was rejected: joint_counts raised %s: %s" %
-                (r.get("type"), r.get("msg")), item=i, dx=it["dx"], dy=it["dy"], nx=it["nx"], ny=it["ny"],
-                X=it["X"], Y=it["Y"])
-        require(r["shape"] == [X0.shape[1], Y0.shape[1], nx, ny], "wrong table shape", item=i, got=r["shape"],
-                want=[X0.shape[1], Y0.shape[1], nx, ny])
-        want = {}
-        for t in range(len(X0)):
-            for a in range(X0.shape[1]):
-                for b in range(Y0.shape[1]):
-                    k = (a, b, int(X0[t, a]), int(Y0[t, b]))
-                    want[k] = want.get(k, 0) + 1
-        got = {tuple(e[:4]): e[4] for e in r["nz"]}
-        require(got == want, "joint counts differ from the literal count (ids beyond the narrower / other dtype)",
-                item=i, dx=it["dx"], dy=it["dy"], nx=it["nx"], ny=it["ny"], X=it["X"], Y=it["Y"],
-                got=sorted(got.items())[:12], want=sorted(want.items())[:12])
-        t_, c_ = _wide_classes(it)
-        nt = nt or t_
-        cl += c_
-    if died is not None:
-        require(False, "child died after the last item", rc=died["rc"], stderr=died["stderr"][-400:])
-    return Info(nt, cl)
+    return run_batch(case, check_valid_item)
+
+
+# --------------------------------------------------------------------------
+# clause 19 (thorough only): the same campaign - valid tables in every layout / dtype / thread count, wide ids,
+# invalid inputs - inside the AddressSanitizer + UBSan build; any sanitizer report is a violation
+
+def _valid_item():
+    return pair_case(max_T=30).map(lambda c: dict(c, api="joint_counts", want="counts"))
+
+
+def asan_batch():
+    return st.lists(st.one_of(_valid_item(), _valid_item(), invalid_item(), wide_item()), min_size=3,
+                    max_size=12).map(lambda v: {"items": v})
+
+
+def run_asan(case):
+    if asan_setup() is None:
+        from vf.harness import Skip
+        raise Skip("no sanitizer build available: %s" % _ASAN.get("err"))
+    return run_batch(case, lambda i, it, r: (check_invalid_item if it.get("expect") == "raise"
+                                             else check_valid_item)(i, it, r), asan=True)
 
 
 # --------------------------------------------------------------------------
@@ -1405,6 +1457,8 @@ CLAUSES = [
            doc="negative / too large state ids and feature arrays of different lengths are rejected (child process)"),
     Clause("counts_wide_ids", wide_batch(), run_wide, quick=12, thorough=320,
            doc="exact counts when ids exceed the other side's / a narrower dtype or sit at the dtype maximum (child)"),
+    Clause("asan_campaign", asan_batch(), run_asan, quick=0, thorough=192,
+           doc="valid, wide-id and invalid inputs inside the ASan+UBSan build: no sanitizer report, same verdicts"),
 ]
 
 
